@@ -123,6 +123,9 @@ func (w *World) val(shape string) string {
 		return fmt.Sprintf("L%03d", w.Step) + strings.Repeat("x", 96)
 	case "M":
 		return fmt.Sprintf("M%03d", w.Step) + strings.Repeat("y", 16)
+	case "X":
+		// larger than a 32 KiB journal block: the record spans blocks (and journal reads)
+		return fmt.Sprintf("X%03d", w.Step) + strings.Repeat("z", 40000)
 	}
 	return fmt.Sprintf("v%d", w.Step)
 }
@@ -286,7 +289,7 @@ func (w *World) enabled(op string) bool {
 		return w.Tr == nil
 	case "tput", "tdel", "twrite", "tbig", "commit", "discard":
 		return w.Tr != nil
-	case "put", "putE", "putL", "putM", "del", "b1", "b2", "big", "w", "trx", "cr", "crb", "crk":
+	case "put", "putE", "putL", "putM", "putX", "del", "b1", "b2", "big", "w", "trx", "cr", "crb", "crk":
 		// writers and CompactRange block while a transaction is open
 		return w.Tr == nil
 	}
@@ -372,6 +375,8 @@ func (w *World) Apply(op string) {
 		w.put(arg, w.val("L"))
 	case "putM":
 		w.put(arg, w.val("M"))
+	case "putX":
+		w.put(arg, w.val("X"))
 	case "del":
 		w.del(arg)
 	case "b1":
